@@ -158,7 +158,8 @@ theorem sparse_normSq_spec [CommSemiring α] [DecidableEq α] (S : Sparse α) (h
   intro e he
   have := sum_single' (allSubs S.shape) (allSubs_nodup _) e.1 (fun _ => e.2 * e.2)
     (mem_allSubs.2 (entries_inb S hS e he))
-  rw [← this]
+  show e.2 * e.2 = _
+  conv => lhs; rw [← this]
   apply sum_congr
   intro k _
   by_cases h : e.1 = k
